@@ -309,6 +309,7 @@ func runCheck(id, tier string, seed int) int {
 	os.MkdirAll(filepath.Join(outDir, "replay"), 0o755)
 
 	broken := false
+	var undecided []string
 	var results []*UnitResult
 	var jobs []solveJob
 	unitOf := map[*UnitResult]PropUnit{}
@@ -343,7 +344,7 @@ func runCheck(id, tier string, seed int) int {
 		}
 		p := eng.pkgs[ip]
 		if p == nil {
-			fmt.Printf("BROKEN: package %s not loaded\n", pu.Pkg)
+			undecided = append(undecided, fmt.Sprintf("BROKEN: package %s not loaded", pu.Pkg))
 			broken = true
 			continue
 		}
@@ -370,7 +371,7 @@ func runCheck(id, tier string, seed int) int {
 				results = append(results, r)
 				unitOf[r] = PropUnit{Pkg: pu.Pkg, Func: r.Key}
 				for _, e := range r.SpecErrors {
-					fmt.Printf("UNDECIDED: lemma %s: %s\n", r.Key, e)
+					undecided = append(undecided, fmt.Sprintf("UNDECIDED: lemma %s: %s", r.Key, e))
 					broken = true
 				}
 				for _, o := range r.Obls {
@@ -380,7 +381,7 @@ func runCheck(id, tier string, seed int) int {
 		}
 		p := eng.pkgs[ip]
 		if p == nil {
-			fmt.Printf("BROKEN: package %s not loaded\n", pu.Pkg)
+			undecided = append(undecided, fmt.Sprintf("BROKEN: package %s not loaded", pu.Pkg))
 			broken = true
 			continue
 		}
@@ -390,7 +391,7 @@ func runCheck(id, tier string, seed int) int {
 			continue
 		}
 		if err != nil {
-			fmt.Printf("UNDECIDED: %v\n", err)
+			undecided = append(undecided, fmt.Sprintf("UNDECIDED: %v", err))
 			broken = true
 			continue
 		}
@@ -399,16 +400,16 @@ func runCheck(id, tier string, seed int) int {
 				skippedStar = append(skippedStar, res.Pkg+"."+res.Key+": "+res.Unsupported)
 				continue
 			}
-			fmt.Printf("UNDECIDED: %s.%s: outside the supported subset: %s\n", res.Pkg, res.Key, res.Unsupported)
+			undecided = append(undecided, fmt.Sprintf("UNDECIDED: %s.%s: outside the supported subset: %s", res.Pkg, res.Key, res.Unsupported))
 			broken = true
 			continue
 		}
 		for _, e := range res.SpecErrors {
-			fmt.Printf("UNDECIDED: %s.%s: contract error: %s\n", res.Pkg, res.Key, e)
+			undecided = append(undecided, fmt.Sprintf("UNDECIDED: %s.%s: contract error: %s", res.Pkg, res.Key, e))
 			broken = true
 		}
 		for _, n := range res.MissingLoops {
-			fmt.Printf("UNDECIDED: %s.%s: contract anchor missing: loop %d\n", res.Pkg, res.Key, n)
+			undecided = append(undecided, fmt.Sprintf("UNDECIDED: %s.%s: contract anchor missing: loop %d", res.Pkg, res.Key, n))
 			broken = true
 		}
 		results = append(results, res)
@@ -537,7 +538,7 @@ func runCheck(id, tier string, seed int) int {
 			canaryBad = append(canaryBad, fe.Func+"/canary (no reachable exit)")
 		}
 		if pu.MinObls > 0 && claimedCount < pu.MinObls {
-			fmt.Printf("BROKEN: %s has %d claimed obligations, expected at least %d (vacuity guard)\n", fe.Func, claimedCount, pu.MinObls)
+			undecided = append(undecided, fmt.Sprintf("BROKEN: %s has %d claimed obligations, expected at least %d (vacuity guard)", fe.Func, claimedCount, pu.MinObls))
 			broken = true
 		}
 		for s := range solverSet {
@@ -548,7 +549,7 @@ func runCheck(id, tier string, seed int) int {
 		funcs = append(funcs, fe)
 	}
 	for _, c := range canaryBad {
-		fmt.Printf("BROKEN: vacuity canary %s came back unsat (contradictory assumptions)\n", c)
+		undecided = append(undecided, fmt.Sprintf("BROKEN: vacuity canary %s came back unsat (contradictory assumptions)", c))
 		broken = true
 	}
 	sort.Strings(knownLines)
@@ -558,6 +559,15 @@ func runCheck(id, tier string, seed int) int {
 	}
 	for _, l := range violLines {
 		fmt.Println(l)
+	}
+	// something the check needs is gone or inconsistent (contract anchor missing, contract no longer well-formed for the
+	// code, vacuity guard): the property is not established for this tree. Reported as a violation without input.
+	for i, msg := range undecided {
+		fmt.Println(msg)
+		replay := filepath.Join(outDir, "replay", fmt.Sprintf("undecided_%d.txt", i))
+		os.WriteFile(replay, []byte("property: "+id+"\n"+msg+"\nThe obligations of this unit could not be generated or are vacuous on the current tree; nothing is proved for it.\nno-failing-input-found\n"), 0o644)
+		fmt.Printf("VIOLATION property=%s replay=%s obligation=undecided[%d] %s no-failing-input-found\n", id, replay, i, oneLine(msg))
+		violations++
 	}
 	level := spec.Level
 	if level == "" {
@@ -584,7 +594,7 @@ func runCheck(id, tier string, seed int) int {
 		return 1
 	}
 	if broken {
-		return 2
+		return 1
 	}
 	return 0
 }
